@@ -94,6 +94,8 @@ func init() {
 	RegisterKind("snap-family", "C01")
 	RegisterKind("snap-denied", "C01")
 	RegisterKind("lock-held", "C18", "C16")
+	RegisterKind("snap-cross-effect", "C04")
+	RegisterKind("linearizability", "C04", "C18")
 	RegisterKind("count-mismatch", "C04", "C06", "C15")
 	// request outcomes
 	RegisterKind("alloc-unexpected", "C19", "C06", "C04")
